@@ -1,9 +1,10 @@
 //! C07 operations (written SVG is well-formed, self-contained and re-parsable).
 //!   c07-write  payload `opts\twopts\tdoc`
 //!       wopts: `-` or `key=value;..` with prefix=<hex of utf-8>, pt=0|1 (preserve_text), sq=0|1 (single quotes),
-//!              indent=none|tabs|<n>, aindent=none|tabs|<n>, cp=<n>, tp=<n> (coordinate / transform precision)
+//!              indent=none|tabs|<n>, aindent=none|tabs|<n>, cp=<n>, tp=<n> (coordinate / transform precision),
+//!              full=1 (always return the written text)
 //!       -> {"len":..,"xml":null|"<error>","root":[tag,ns],"skeleton":[tag,{attr:value..},[kids..]],
-//!           "bad_numbers":[[tag,attr,value]..],"reparse":null|"<error>","size_a":[..],"size_b":[..],
+//!           "bad_numbers":[[tag,attr,value,first bad token]..],"reparse":null|"<error>","size_a":[..],"size_b":[..],
 //!           "dump":<dump of the original tree>}            or {"error":..} when the document itself does not parse
 use crate::dump::{dump_tree, esc};
 use crate::util::*;
@@ -73,39 +74,47 @@ fn plain_decimal(tok: &str) -> bool {
     }
 }
 
-fn numbers_ok(tag: &str, name: &str, value: &str) -> bool {
+/// first token of a numeric attribute that is not a plain decimal
+fn bad_number(tag: &str, name: &str, value: &str) -> Option<String> {
+    let first_bad = |it: &mut dyn Iterator<Item = &str>| -> Option<String> {
+        it.filter(|t| !t.is_empty()).find(|t| !plain_decimal(t)).map(|t| t.to_string())
+    };
     if name == "d" {
         return value
             .split(' ')
             .filter(|t| !t.is_empty())
-            .all(|t| matches!(t, "M" | "L" | "Q" | "C" | "Z") || plain_decimal(t));
+            .find(|t| !(matches!(*t, "M" | "L" | "Q" | "C" | "Z") || plain_decimal(t)))
+            .map(|t| t.to_string());
     }
     if name == "transform" || name == "gradientTransform" || name == "patternTransform" {
         return match value.strip_prefix("matrix(").and_then(|v| v.strip_suffix(')')) {
             Some(inner) => {
                 let v: Vec<&str> = inner.split(' ').collect();
-                v.len() == 6 && v.iter().all(|t| plain_decimal(t))
+                if v.len() != 6 {
+                    return Some(format!("{} values", v.len()));
+                }
+                first_bad(&mut v.into_iter())
             }
-            None => false,
+            None => Some("not matrix(..)".to_string()),
         };
     }
     if name == "values" {
         // feColorMatrix: numbers for matrix / saturate / hueRotate
-        return value.split(' ').filter(|t| !t.is_empty()).all(plain_decimal);
+        return first_bad(&mut value.split(' '));
     }
     if name == "baseline-shift" {
-        return matches!(value, "sub" | "super") || plain_decimal(value);
+        return if matches!(value, "sub" | "super") || plain_decimal(value) { None } else { Some(value.to_string()) };
     }
     if name == "offset" && tag == "stop" {
-        return plain_decimal(value);
+        return if plain_decimal(value) { None } else { Some(value.to_string()) };
     }
     if NUMERIC.contains(&name) {
-        return value.split(' ').filter(|t| !t.is_empty()).all(plain_decimal);
+        return first_bad(&mut value.split(' '));
     }
-    true
+    None
 }
 
-fn skel(n: roxmltree::Node, o: &mut String, bad: &mut Vec<(String, String, String)>) {
+fn skel(n: roxmltree::Node, o: &mut String, bad: &mut Vec<(String, String, String, String)>) {
     let tag = n.tag_name().name();
     o.push('[');
     o.push_str(&esc(tag));
@@ -115,12 +124,14 @@ fn skel(n: roxmltree::Node, o: &mut String, bad: &mut Vec<(String, String, Strin
         let name = a.name();
         let is_xlink = a.namespace() == Some("http://www.w3.org/1999/xlink");
         let full = if is_xlink { format!("xlink:{}", name) } else { name.to_string() };
-        if !numbers_ok(tag, &full, a.value()) && bad.len() < 20 {
-            let mut v = a.value().to_string();
-            if v.len() > 80 {
-                v = v.chars().take(80).collect();
+        if bad.len() < 20 {
+            if let Some(tok) = bad_number(tag, &full, a.value()) {
+                let mut v = a.value().to_string();
+                if v.len() > 80 {
+                    v = v.chars().take(80).collect();
+                }
+                bad.push((tag.to_string(), full.clone(), v, tok));
             }
-            bad.push((tag.to_string(), full.clone(), v));
         }
         let keep = KEEP.contains(&full.as_str()) || full == "xlink:href";
         if !keep {
@@ -217,11 +228,11 @@ fn op_write(payload: &str) -> String {
         }
     }
     o.push_str(",\"bad_numbers\":[");
-    for (i, (t, a, v)) in bad.iter().enumerate() {
+    for (i, (t, a, v, tok)) in bad.iter().enumerate() {
         if i != 0 {
             o.push(',');
         }
-        o.push_str(&format!("[{},{},{}]", esc(t), esc(a), esc(v)));
+        o.push_str(&format!("[{},{},{},{}]", esc(t), esc(a), esc(v), esc(tok)));
     }
     o.push(']');
     // re-parse with the same options (resources dir of the source so that nothing external is needed: images are inlined)
@@ -243,7 +254,7 @@ fn op_write(payload: &str) -> String {
     }
     o.push_str(",\"dump\":");
     o.push_str(&dump_tree(&tree));
-    if text.len() < 3000 {
+    if text.len() < 3000 || f[1].contains("full=1") {
         o.push_str(",\"text\":");
         o.push_str(&esc(&text));
     }
